@@ -29,7 +29,7 @@ def plumbing(fw, extra=""):
     """W1: imports at the top of a woven file"""
     fw._plumbed = True
     first = min((n["span"][0] for n in fw.nodes if n["parent"] == -1), default=0)
-    fw.insert(first, "#[allow(unused_imports)] use vstd::prelude::*;\n#[allow(unused_imports)] use crate::verif_specs::*;\n#[allow(unused_imports)] use crate::verif_prelude::*;\nverus!{ broadcast use {crate::verif_prelude::group_pyxis_axioms, crate::verif_specs::group_path_axioms, crate::verif_specs::group_vftable_axioms}; }\n" + extra, rule="W1")
+    fw.insert(first, "#[allow(unused_imports)] use vstd::prelude::*;\n#[allow(unused_imports)] use crate::verif_specs::*;\n#[allow(unused_imports)] use crate::verif_prelude::*;\nverus!{ broadcast use {crate::verif_prelude::group_pyxis_axioms, crate::verif_specs::group_path_axioms, crate::verif_specs::group_vftable_axioms, crate::verif_specs::group_builtin_axioms}; }\n" + extra, rule="W1")
 
 
 def plumbing_once(fw):
@@ -657,3 +657,9 @@ def map_find(fw, fnnode, find_node, us, ps):
     fw.replace(find_node["span"][0], mp["paren_span"][0] + 1, "crate::verif_prelude::v_map_find(%s.as_slice(), " % x, "W9-R-std-map-find")
     fw.replace(mp["paren_span"][1] - 1, find_node["paren_span"][0] + 1, ", ", "W9-R-std-map-find")
     fw.insert(find_node["paren_span"][1] - 1, ", Ghost(%s), Ghost(%s)" % (us, ps), rule="W10", prio=8)
+
+
+def redirect_call(fw, call_node, helper, rule="W9-R-std-call"):
+    """R-std: a call `PATH(args)` of a function Verus cannot be given a spec for goes through a trusted
+    prelude wrapper with the same arguments whose body is the original call"""
+    fw.replace(call_node["func_span"][0], call_node["func_span"][1], "crate::verif_prelude::" + helper, rule)
